@@ -37,6 +37,9 @@ type Publisher struct {
 // destination. Which may be a file system, or somewhere else of your choosing.
 // If you only wish to generate files you should use a DirectoryFileWriter.
 func NewPublisher(doc *gedcom.Document, options *PublishShowOptions) *Publisher {
+	// The surnames are collected again for every site that is published.
+	forgetSurnames(doc)
+
 	publisher := &Publisher{
 		doc:          doc,
 		options:      options,
